@@ -5,7 +5,7 @@ from .common import *
 
 def run(ck):
     q = ck.quick()
-    Q = scope.q_scope(ck, 5, 6, [4], minv=1) + scope.q_scope(ck, 4 if q else 6, 8, [6], minv=1)
+    Q = scope.q_scope(ck, 5, 6, [4], minv=1) + scope.q_scope(ck, 4 if q else 6, 8, [6], minv=1) + scope.q_scope(ck, 4 if q else 5, 7, [5, 7], minv=1)
     ck.exhaustive = True
     groups = []
     for g in Q:
@@ -17,7 +17,7 @@ def run(ck):
         g = dict(g); g["orc"] = 0
         g["calls"] = [pcall(a, f, extra=False) for a in COVERS for f in ("list", "dict")]
         groups.append(g)
-    ck.rule = ("TLC enumerates every arrival sequence of <=5 positive values up to C+2 for C in {4,6} (items larger than a bin, inputs that cover "
+    ck.rule = ("TLC enumerates every arrival sequence of <=5 positive values up to C+2 for C in {4,5,6,7} (items larger than a bin, inputs that cover "
                "nothing, repeats included); decreasing, two-thirds and three-quarters executed on each as a plain list and as a dict; plus seeded families "
                "up to 40 items around the class thresholds. non-trivial = distinct (sequence, C) with >=2 items")
     run_pack_groups(ck, groups, {"C05"}, "C05 valid covers")
